@@ -160,8 +160,10 @@ func Run(src []byte) (*Result, error) {
 	if err := os.Rename(tmp, resPath); err != nil {
 		return nil, err
 	}
-	// keep the source next to the result for debugging
-	os.WriteFile(filepath.Join(dir, "main.go"), src, 0o644)
+	// keep small sources next to the result for debugging
+	if len(src) <= 1<<18 {
+		os.WriteFile(filepath.Join(dir, "main.go"), src, 0o644)
+	}
 	return r, nil
 }
 
